@@ -268,12 +268,35 @@ pub struct GuestExec {
     files: Vec<std::path::PathBuf>,
 }
 
+/// A backend other than GuestMemoryMmap may iterate its regions in any order (the trait does not promise one): the
+/// harness' own observations always go by guest address.
+fn ordered<M: GuestMemory>(m: &M) -> Vec<&M::R> {
+    let mut v: Vec<&M::R> = m.iter().collect();
+    v.sort_by_key(|r| r.start_addr().0);
+    v
+}
+
+pub trait Order {
+    /// true for a foreign backend whose iteration order is its own business
+    fn foreign_order(&self) -> bool;
+}
+impl Order for CMem {
+    fn foreign_order(&self) -> bool {
+        true
+    }
+}
+impl<B: vm_memory::bitmap::Bitmap> Order for GuestMemoryMmap<B> {
+    fn foreign_order(&self) -> bool {
+        false
+    }
+}
+
 fn project<M: GuestMemory>(m: &M) -> Value
 where
     M::R: Insp,
 {
-    let regs: Vec<Value> = m
-        .iter()
+    let regs: Vec<Value> = ordered(m)
+        .into_iter()
         .map(|r| {
             let n = r.len() as usize;
             let mem: Vec<u8> = unsafe { std::slice::from_raw_parts(r.host(), n).to_vec() };
@@ -326,7 +349,7 @@ fn runit(r: Result<(), GErr>) -> Value {
     }
 }
 
-fn run_op<M: GuestMemory>(m: &M, op: &str, line: &Value) -> Value
+fn run_op<M: GuestMemory + Order>(m: &M, op: &str, line: &Value) -> Value
 where
     M::R: Insp,
 {
@@ -334,7 +357,7 @@ where
     let gu = |k: &str| us(line, k);
     let ga = |k: &str| GuestAddress(u(line, k));
     let bytes = |k: &str| -> Vec<u8> { line["a"][k].as_array().expect("harness: bytes").iter().map(|x| x.as_u64().unwrap() as u8).collect() };
-    let reg = || -> &M::R { m.iter().nth(gu("ri") - 1).expect("harness: region index") };
+    let reg = || -> &M::R { *ordered(m).get(gu("ri") - 1).expect("harness: region index") };
     match op {
         // ---------------- queries ----------------
         "find_region" => match m.find_region(ga("addr")) {
@@ -366,7 +389,13 @@ where
             Err(e) => gerr(&e),
         },
         "num_regions" => okv(m.num_regions()),
-        "iter" => okv(m.iter().map(|r| vec![r.start_addr().0, r.len()]).collect::<Vec<_>>()),
+        "iter" => {
+            let mut v: Vec<Vec<u64>> = m.iter().map(|r| vec![r.start_addr().0, r.len()]).collect();
+            if m.foreign_order() {
+                v.sort();
+            }
+            okv(v)
+        }
         // ---------------- region-level queries ----------------
         "r_last_addr" => okv(reg().last_addr().0),
         "r_address_in_range" => okv(reg().address_in_range(MemoryRegionAddress(g("addr")))),
@@ -597,7 +626,14 @@ impl Exec for GuestExec {
                 .map(|x| (x[0].as_u64().unwrap(), x[1].as_u64().unwrap()))
                 .collect();
             if be == "custom" {
-                self.mem = Some(Mem::Custom(CMem { regions: lay.iter().map(|&(st, n)| CRegion::new(st, n)).collect() }));
+                let mut regions: Vec<CRegion> = lay.iter().map(|&(st, n)| CRegion::new(st, n)).collect();
+                // storage (= iteration) order of the foreign backend: as given, reversed, or rotated
+                match line["a"]["perm"].as_str().unwrap_or("id") {
+                    "rev" => regions.reverse(),
+                    "rot" if !regions.is_empty() => regions.rotate_left(1),
+                    _ => {}
+                }
+                self.mem = Some(Mem::Custom(CMem { regions }));
             } else {
                 let nz = NonZeroUsize::new(p).expect("harness: p");
                 let mut regions = Vec::new();
